@@ -37,6 +37,13 @@ HARNESSES = [
         ("c01_search_tree_prefix_siblings", "tree '' -> ['/a.b', '/a' -> ['/c'], :p]: static siblings sharing a byte prefix (separator characters sorting below '/'): every path reaches the segment-wise matching route"),
     ]
 ]
+MN = ["GET", "PUT", "POST", "PATCH", "DELETE", "OPTIONS", "HEAD"]
+HARNESSES += [H(f"c01_handle_dispatch_k{k:02d}", functions=["router::final::Router::handle", "router::final::Node::search", "response::Response::complete"],
+                clauses=["the tree of the request's method is searched and the handler registered there for the matching route runs; HEAD runs the GET handler and is answered without a body but with its headers",
+                         "a path with no route is answered 404 by the catch proc: no handler runs"],
+                bound=f"six one-route trees (`/a`) answering with distinct statuses; request {MN[k % 7]} {'/a' if k // 7 == 0 else '/b'}", crate="ohkami", tier="quick", strength="bounded", timeout=900) for k in range(14)]
+
+
 def stub_fmt_note():
     return "alloc::fmt::format executed (merge_statics uses format!)"
 
